@@ -36,7 +36,11 @@ ASSUMPTIONS = [
     "column under the name 'charge_column', so dataset.charge_column stays None; the statement is silent on it)",
     "feature order = file order is required as a separate case id ('feature-order'); spectrum-key order is free",
     "read_percolator_missing_cells: a missing value is an empty cell or the text NaN in tab-delimited input, a null / "
-    "NaN in Parquet; a feature column is numeric (whole numbers, 0/1 flags, reals or a mixture), never text",
+    "NaN in Parquet; a feature column is numeric (whole numbers, 0/1 flags, reals or a mixture) or a true/false flag "
+    "column (text True/False, Parquet bool), never other text; a column whose every cell is missing is a column with "
+    "missing values like any other",
+    "read_percolator_rejects: stray labels are whole numbers of a numeric label column within the int64 range "
+    "(no fractional, text or > 2**63 labels)",
 ]
 
 
@@ -348,18 +352,22 @@ def _map(fn, jobs, procs=8, chunksize=8):
 
 # ------------------------------------------------------------------------- missing cell x value kind families
 # A "plan" gives every feature column a value kind and the zone of its missing cell(s); both vary independently.
-KINDS = ["whole", "flag", "real", "whole-then-real", "real-then-whole"]
+KINDS = ["whole", "flag", "real", "whole-then-real", "real-then-whole", "truefalse"]
 #   whole            whole numbers 0..30 in every row                       (text: "17";  Parquet: int64 / Int64)
 #   flag             0/1 indicator                                           (text: "0"/"1"; Parquet: int64 / Int64)
 #   real             numbers with a fractional part in every row             (Parquet: float64)
 #   whole-then-real  whole numbers in the first two rows, fractional values among the later rows
 #   real-then-whole  fractional values in the first two rows, whole numbers among the later rows
-POSITIONS = ["first-rows", "later-row", "last-row", "next-row-chunk"]
+#   truefalse        true/false flag, NOT a number after parsing   (text: "True"/"False"; Parquet: bool, with a missing
+#                    cell bool with nulls - pandas hands those out as python objects)
+POSITIONS = ["first-rows", "later-row", "last-row", "next-row-chunk", "every-row"]
 #   first-rows       missing cell(s) in row 0 and/or 1
 #   later-row        1-2 missing cells after the first two rows and before the last row (inside the first row chunk
 #                    whenever the row chunk is larger than 2)
 #   last-row         only the last row
 #   next-row-chunk   1-2 missing cells in rows of a LATER row chunk than the first (row index >= row chunk size)
+#   every-row        every cell of the column is missing (text: an empty / all-NaN column; Parquet: an all-null column of
+#                    the physical type of the kind, or a null-type column when written from python objects)
 SMALL_ROW_CHUNKS = [2, 3, 7]
 
 
@@ -370,6 +378,8 @@ def _missing_rows(rnd, pos, n, r):
         return sorted(rnd.sample([0, 1], rnd.choice([1, 1, 2])))
     if pos == "last-row":
         return [n - 1]
+    if pos == "every-row":
+        return list(range(n))
     if pos == "later-row":
         zone = list(range(2, min(r, n - 1))) if r > 2 else list(range(2, n - 1))
     elif pos == "next-row-chunk":
@@ -394,6 +404,8 @@ def _planned_column(spec, col, n):
 
     if kind in ("whole", "flag"):
         v = [whole() for _ in range(n)]
+    elif kind == "truefalse":
+        v = [rnd.random() < 0.5 for _ in range(n)]
     elif kind == "real":
         v = [real() for _ in range(n)]
     else:
@@ -411,12 +423,16 @@ def _planned_column(spec, col, n):
         return pd.Series(v, dtype="int64")
     if phys == "Int64":
         return pd.Series(v, dtype="Int64")         # nullable integers: Parquet int64 with nulls
+    if phys in ("bool", "boolean"):
+        return pd.Series(v, dtype=phys)            # Parquet bool (nullable boolean: bool with nulls)
+    if phys == "object":
+        return pd.Series(v, dtype=object)          # True/False/None objects: Parquet bool with nulls, all None: null type
     return pd.Series([float("nan") if x is None else float(x) for x in v], dtype="float64")
 
 
 def make_missing_spec(seed, i, family, fmt, chunk_cols, kind=None, pos=None):
     """family "single": one column (kind, pos) with missing cells among 2..6 complete columns of random kinds;
-    family "cross": one column for every (kind, zone) pair, zone in POSITIONS + none (25 feature columns)."""
+    family "cross": one column for every (kind, zone) pair, zone in POSITIONS + none (36 feature columns)."""
     rnd = random.Random("c10m-%d-%d" % (seed, i))
     if family == "single":
         others = [(rnd.choice(KINDS), "none") for _ in range(rnd.randint(2, 6))]
@@ -431,6 +447,8 @@ def make_missing_spec(seed, i, family, fmt, chunk_cols, kind=None, pos=None):
     for c, (k, p) in zip(feats, plan):
         if k in ("whole", "flag"):
             phys = "int64" if p == "none" else rnd.choice(["Int64", "float64"])
+        elif k == "truefalse":
+            phys = "bool" if p == "none" else rnd.choice(["boolean", "object"])
         else:
             phys = "float64"
         spec["plan"][c] = [k, p, phys]
@@ -467,13 +485,15 @@ def check_missing_cells(tier, seed):
     ck = Check("read_percolator_missing_cells", "mokapot.parsers.pin.read_pin / read_percolator",
                ("exhaustive over value kind of the column %s x zone of its missing cell(s) %s x format {tab-delimited text, "
                 "Parquet} x column chunk {3,19}: one such column among 2..6 complete columns of random kinds; plus tables "
-                "with one feature column for every (kind, zone or no missing cell) pair (25 feature columns, column chunk "
+                "with one feature column for every (kind, zone or no missing cell) pair (%d feature columns, column chunk "
                 "3|4|5|19, text and Parquet); %d repetition(s); per case random (seed %d): 9..30 rows, row chunk 2|3|7 "
                 "(or 2e6 when no next-row-chunk zone is planned), max_workers 1|2, column order/casing/optional columns "
                 "as in read_percolator_tables, text: missing cell written as empty or NaN, numbers written as they are "
-                "(17 / 2.5); Parquet: whole/flag = int64, with missing cell nullable Int64 or float64, other kinds "
-                "float64, row groups whole file|4|5; %d cases")
-               % (KINDS, POSITIONS, 1 if tier == "quick" else 8, seed, len(todo)),
+                "(17 / 2.5 / True); Parquet: whole/flag = int64, with missing cell nullable Int64 or float64, truefalse = "
+                "bool, with missing cell bool with nulls (written from nullable booleans or from python objects: an "
+                "all-missing object column is a null-type column), other kinds float64, row groups whole file|4|5; "
+                "%d cases")
+               % (KINDS, POSITIONS, len(KINDS) * (len(POSITIONS) + 1), 1 if tier == "quick" else 8, seed, len(todo)),
                "oracle from the case spec: same comparison as read_percolator_tables (rows, order, targets, spectrum key), "
                "features = the planned columns without a missing cell, in file order; every case is non-trivial (at "
                "least one column with a missing cell)")
@@ -510,6 +530,28 @@ def _reject_specs(tier, seed):
             spec["bad_label"] = [rnd.randint(0, 1000), rnd.choice([2, -2, 3, 7, -5])]
             spec["why"] = "label-out-of-range"
         yield spec
+    # stray labels far outside the range: an out-of-range label is rejected however large it is
+    far = far_labels()
+    reps = 1 if tier == "quick" else 4
+    for j in range(reps * len(far)):
+        rnd = random.Random("c10t-far-%d-%d" % (seed, j))
+        fmt = ("text", "parquet")[(j + j // len(far)) % 2] if tier == "quick" else rnd.choice(["text", "parquet"])
+        spec = make_spec(seed, 150000 + j, rnd.randint(1, 25), rnd.randint(0, 3), rnd.choice([3, 4, 5, 19]), fmt)
+        spec["label_enc"] = rnd.choice(["pm1", "10"])
+        spec["bad_label"] = [rnd.randint(0, 1000), far[j % len(far)]]
+        spec["why"] = "label-far-out-of-range"
+        yield spec
+
+
+def far_labels():
+    """whole-number labels far outside {-1, 0, 1}: around the limits of the 8/16/32-bit integer types, and every
+    k * 2**b + r with b in 8|16|32, k in 1|-1|2|3, r in -1|0|1 (the values a narrow integer type folds onto -1/0/1)"""
+    out = [100, -100, 127, -127, 128, -128, 129, -129, 1000, -1000, 32767, -32768, 2 ** 31 - 1, -2 ** 31, 2 ** 62]
+    for b in (8, 16, 32):
+        for k in (1, -1, 2, 3):
+            for r in (-1, 0, 1):
+                out.append(k * 2 ** b + r)
+    return sorted(set(out), key=lambda v: (abs(v), v))
 
 
 def run_reject(spec, d):
@@ -520,7 +562,8 @@ def run_reject(spec, d):
     except ValueError:
         return []
     except Exception as e:
-        return [("%s-wrong-error:%s" % (spec["why"].split("-")[0], type(e).__name__),
+        return [("%s-wrong-error:%s" % ("label-far" if spec["why"].startswith("label-far") else spec["why"].split("-")[0],
+                                        type(e).__name__),
                  "%s: %s instead of ValueError: %s" % (spec["why"], type(e).__name__, str(e)[:120]))]
     finally:
         try:
@@ -532,16 +575,29 @@ def run_reject(spec, d):
 
 def check_rejects(tier, seed):
     specs = list(_reject_specs(tier, seed))
+    n_near = sum(1 for s in specs if s["why"] != "label-far-out-of-range")
     ck = Check("read_percolator_rejects", "mokapot.parsers.pin.read_pin / read_percolator",
                "random: %d generated tables (seed %d), half lacking one of the 5 required columns, half with one label in "
-               "{2,-2,3,7,-5}; text and Parquet" % (len(specs), seed),
+               "{2,-2,3,7,-5}; plus %d generated tables with one label far outside the range, every value of: +-100, "
+               "+-127, +-128, +-129, +-1000, 32767, -32768, 2**31-1, -2**31, 2**62 and k*2**b+r for b in 8|16|32, k in "
+               "1|-1|2|3, r in -1|0|1 (%d values, %s); random row of the stray label, base labels 1/-1 or 1/0, 1..25 "
+               "features, column chunk 3|4|5|19; text and Parquet (int64 label column)"
+               % (n_near, seed, len(specs) - n_near, len(far_labels()),
+                  "each once" if tier == "quick" else "4 random tables each"),
                "expects ValueError; every case is non-trivial (the table is otherwise well-formed)")
     with scratch("c10r_") as d:
-        for spec in specs:
+        jobs = [(spec, str(d)) for spec in specs]
+        for spec, bad in zip(specs, _map(_reject_job, jobs, chunksize=2)):
             ck.case((seed, spec["i"], spec["why"]))
-            for case, what in run_reject(spec, d):
+            for case, what in bad:
                 ck.violation(case, what, _payload(spec))
     return ck
+
+
+def _reject_job(job):
+    from pathlib import Path
+    spec, d = job
+    return run_reject(spec, Path(d))
 
 
 def replay(violation):
